@@ -446,7 +446,8 @@ func (rt *runtime) convertCallParameter(v Value, t reflect.Type) (reflect.Value,
 	case reflect.String:
 		switch v.kind {
 		case valueString:
-			return reflect.ValueOf(v.value), nil
+			// v.value may hold UTF-16 code units ([]uint16): a Go string is wanted
+			return reflect.ValueOf(v.string()), nil
 		case valueNumber:
 			return reflect.ValueOf(v.string()), nil
 		}
